@@ -157,3 +157,23 @@ extern "C" int copies()
   vf_reach("end");
   return 0;
 }
+
+// entity and numeric character references in arbitrary text: bounds-safe, terminates, known entities and &#N; decode
+extern "C" int unescape_safety()
+{
+  unsigned n = vf_pick(VF_LEN + 2); char d[12];
+  for(unsigned i = 0; i < n; ++i) { byte b = vf_u8(); vf_assume((b == '&') | (b == '#') | (b == ';') | (b == '6') | (b == '5') | (b == 'l') | (b == 't') | (b == 'x')); d[i] = (char)b; }
+  {
+    String s(d, n);
+    String u = Xml::Private::unescapeString(s);
+    vf_assert(u.length() <= n, "unescape never makes the text longer");
+    const char* p = u;
+    vf_assert(p[u.length()] == 0, "unescaped text is terminated");
+    bool amp = false; for(unsigned i = 0; i < n; ++i) amp |= d[i] == '&';
+    if(!amp) { vf_assert(u.length() == n, "text without '&' is unchanged (length)"); for(unsigned i = 0; i < n; ++i) vf_assert(p[i] == d[i], "text without '&' is unchanged"); }
+    if(n == 4 && d[0] == '&' && d[1] == 'l' && d[2] == 't' && d[3] == ';') vf_assert(u == "<", "&lt; decodes to <");
+    if(n == 5 && d[0] == '&' && d[1] == '#' && d[2] == '6' && d[3] == '5' && d[4] == ';') vf_assert(u == "A", "&#65; decodes to A");
+  }
+  vf_reach("end");
+  return 0;
+}
